@@ -108,6 +108,12 @@ int vf_main(void) {
 #else
     eligB = 1; eligC = 1; eligA = 1;
 #endif
+#ifdef PREFILL
+    /* one recipient's mailbox is already full (PREFILL 1: B, 2: C): it is outside the delivery guarantee for what
+     * follows, the other recipients are not */
+    static char filler[VF_PIPE_MAX];
+    for (int i = 0; i < CAP; i++) { r = m_mod_ps_tell(A, PREFILL == 1 ? B : C, &filler[i], 0); VF_CHECK(r == 0, "filler accepted"); }
+#endif
     for (int i = 0; i < NSEND; i++) {
         payload[i] = malloc(1); VF_ASSUME(payload[i] != NULL); *payload[i] = 1;
 #if SEND == 0
@@ -117,18 +123,23 @@ int vf_main(void) {
 #else
         r = m_mod_ps_publish(A, "t", payload[i], autofree ? M_PS_AUTOFREE : 0);
 #endif
-        VF_CHECK(r == 0, "message accepted");
+#ifndef PREFILL
+        if (i < CAP) VF_CHECK(r == 0, "message accepted (mailboxes not full)");
+#endif
     }
     if (autofree && !eligA && !eligB && !eligC)
         for (int i = 0; i < NSEND; i++) VF_CHECK(VF_RELEASED(i), "auto-free payload with no eligible recipient is released at once");
 
     int delivered = NSEND < CAP ? NSEND : CAP;      /* what fits the mailbox; the rest is outside the delivery guarantee */
     int expB = eligB ? delivered : 0, expC = eligC ? delivered : 0, expA = eligA ? delivered : 0;
+#ifdef PREFILL
+    if (PREFILL == 1) expB = 0; else expC = 0;     /* its mailbox was full: not promised (and there is no room) */
+#endif
     unsigned char code = nondet_uchar();
 #if POST == 0
     /* one message is read per module and wake-up; system notifications matched by a regex subscription may sit in
      * front of ours: keep dispatching until everything pending has been read */
-    for (int d = 0; d < NSEND + 2; d++) r = m_ctx_dispatch();
+    for (int d = 0; d < NSEND + 2 + VF_PIPE_MAX; d++) r = m_ctx_dispatch();
 #if PAUSEB
     expB = 0;                                       /* a PAUSED module is not polled: nothing yet */
 #endif
@@ -159,6 +170,9 @@ int vf_main(void) {
     VF_CHECK(gotA == expA, "sender: receives its own message only for a broadcast");
     for (int w = 0; w < 3; w++) for (int k = 0; k < VF_LOGN; k++) if (k < vf_nlog[w] && vf_log[w][k].type == M_SRC_TYPE_PS && !vf_log[w][k].system) {
         VF_CHECK(vf_log[w][k].sender == A, "sender as supplied");
+        _Bool ours = 0;
+        for (int i = 0; i < NSEND; i++) if (vf_log[w][k].data == (void *)payload[i]) ours = 1;
+        if (!ours) continue;             /* a filler message */
 #if SEND == 0 || SEND == 3
         VF_CHECK(vf_log[w][k].topic == NULL, "no topic for tell/broadcast");
 #else
